@@ -348,7 +348,7 @@ HARNESSES = [
       thorough=[dict(n=4, owner=o, part=p) for o in ("tree", "path", "branch") for p in ("key", "slice")], functions=FUNCTIONS,
       bounds="every numbering of every tree with n<=3 (quick) / 4 (thorough) nodes; every int / np.int32 / np.int64 key in [-m-2, m+1], every slice with start/stop in {None} U [-m-1, m+1] and step in {None,1,2,-1,-2}, on the tree, on each root-to-tip path and on each branch"),
     H("views", h_views, quick=[dict(n=k) for k in (1, 2, 3, 4)], thorough=[dict(n=5)], functions=FUNCTIONS, bounds="every numbering of every tree with n<=4/5 nodes, all node handles, paths, branches, compartments, adjacency matrix"),
-    H("history", h_history, quick=[dict(n=3, steps=2)], thorough=[dict(n=3, steps=3), dict(n=4, steps=2)], functions=FUNCTIONS,
-      bounds="every history of 2 (quick) / 3 (thorough) operations from {write through a tree node handle (stale handles included), write through a parent()/children() handle, copy(), detach of a node/path/branch/segment, write into a detached object} with every target, on every tree with 3 (4) nodes; all views of all live objects are compared with a ghost table after every step"),
+    H("history", h_history, quick=[dict(n=3, steps=2)], thorough=[dict(n=2, steps=3), dict(n=4, steps=2)], functions=FUNCTIONS,
+      bounds="every history of 2 operations on 3-node trees (quick) / of 3 operations on 2-node trees and of 2 operations on 4-node trees (thorough) from {write through a tree node handle (stale handles included), write through a parent()/children() handle, copy(), detach of a node/path/branch/segment, write into a detached object} with every target,  all views of all live objects are compared with a ghost table after every step"),
     H("path_node_write", h_path_node_write, quick=[dict(n=2), dict(n=3)], thorough=[dict(n=4)], functions=FUNCTIONS, bounds="n<=3/4, every path, every position"),
 ]
